@@ -1,13 +1,27 @@
 #!/usr/bin/env python3
-"""skeleton: extracts the call skeleton of the engine's pipeline functions (DESIGN.md §2 T, §5.C01/C04).
+"""skeleton: translates the engine's top-level pipeline functions into `Prog` values (DESIGN.md §2 T, §5.C01/C04).
 
-For each function in PIPELINE the clang AST of its body is turned into a small `Prog`:
-  call f | write field | seq | ite guard then else | loop body | switch on expr with cases | err
-Guards are kept *symbolic*: the exact source text of the condition (whitespace-normalised).  Calls to
-other PIPELINE functions are kept as calls (the Lean side inlines them by name), every other call is an
-atomic stage.  Direct writes to `d->field` in the skeleton (e.g. `d->flg_rnepost = 0`) are kept.
-Output: lean/MjProof/Gen/Pipeline.lean + Gen/pipeline_manifest.json.  Unknown statement shapes make
-the translator refuse that function (recorded; the check turns it into a failed tie obligation)."""
+For every function in INLINE the clang AST of its body is turned into a `MjProof.Prog`
+(lean/MjProof/Model/Prog.lean):
+
+  call f key args     a call.  Calls to other INLINE functions are inlined by the Lean side (by name, with the
+                      argument terms bound to the callee's parameters).  Every other call that receives the
+                      `mjData*` is an *atomic stage*; `key` identifies it in the hand-written footprint table:
+                      the callee name when the arguments are just (m, d) / (d), the full source text of the call
+                      otherwise (so `mj_rne(m, d, 0, d->qfrc_inverse)` and `mj_rne(m, d, 0, d->qfrc_bias)` differ).
+  atom text R W K     a statement executed by the function itself (assignment, declaration with initialiser,
+                      ++/--, timer macro) or a call to a utility that does not receive the mjData (mju_copy, …).
+                      R / W are the mjData fields (and the pseudo field "$locals") it reads / may write, K the
+                      scalar fields it overwrites by a plain `=`.  For utilities the direction of a pointer
+                      argument is taken from the callee's prototype (`const T*` = read, `T*` = read+write).
+  ite g t e | loop g p | switch on cases | seq ps | ret | err
+Guards are structured: comparisons / truth tests of the function's own scalar parameters against
+constants are kept as terms (decided by the Lean semantics from the call arguments), every other
+leaf keeps its exact source text and is classified `mconst` (mentions only the const model and
+globals: constant during a call) or `data` (with the fields it reads).
+Anything outside the understood shape makes the translator refuse that function (recorded in
+Gen/pipeline_manifest.json; the checks turn a refusal into a failed tie obligation).
+Output: lean/MjProof/Gen/Pipeline.lean + Gen/pipeline_manifest.json."""
 import json
 import os
 import re
@@ -20,25 +34,34 @@ import c2lean  # noqa: E402
 REPO = c2lean.REPO
 FWD = "src/engine/engine_forward.c"
 INV = "src/engine/engine_inverse.c"
-PIPELINE = [
+# functions whose bodies are translated (and inlined by the Lean side); everything else is an atomic stage
+INLINE = [
     ("mj_step", FWD), ("mj_step1", FWD), ("mj_step2", FWD), ("mj_forward", FWD), ("mj_forwardSkip", FWD),
-    ("mj_fwdPosition", FWD), ("mj_fwdKinematics", FWD), ("mj_fwdVelocity", FWD), ("mj_fwdAcceleration", FWD),
-    ("mj_fwdConstraint", FWD), ("mj_Euler", FWD), ("mj_implicit", FWD), ("mj_checkPos", FWD), ("mj_checkVel", FWD),
-    ("mj_checkAcc", FWD), ("mj_inverse", INV), ("mj_inverseSkip", INV), ("mj_invPosition", INV),
-    ("mj_invVelocity", INV), ("mj_invConstraint", INV), ("mj_compareFwdInv", INV),
+    ("mj_checkPos", FWD), ("mj_checkVel", FWD), ("mj_checkAcc", FWD), ("mj_Euler", FWD), ("mj_implicit", FWD),
+    ("mj_RungeKutta", FWD),
+    ("mj_inverse", INV), ("mj_inverseSkip", INV), ("mj_invVelocity", INV), ("mj_compareFwdInv", INV),
 ]
-IGNORED_CALLS = {"mjv_timerStart", "mju_timerStart", "mjv_timerStop", "mju_timerStop", "mjcb_time"}
+IGNORED_CALLS = {"mjcb_time", "snprintf"}
+LOCALS = "$locals"
 
 
 class Refuse(Exception):
     pass
 
 
-def src_text(path, node, cache={}):
-    if path not in cache:
+_SRC = {}
+
+
+def src_bytes(path):
+    if path not in _SRC:
         with open(path, "rb") as f:
-            cache[path] = f.read()
-    data = cache[path]
+            _SRC[path] = f.read()
+    return _SRC[path]
+
+
+def src_text(path, node):
+    """exact source text of a node (macro invocations are taken at their expansion site), whitespace-normalised"""
+    data = src_bytes(path)
     rng = node.get("range", {})
 
     def off(loc, end=False):
@@ -68,84 +91,408 @@ def src_text(path, node, cache={}):
     return " ".join(txt.split())
 
 
-def callee_name(n):
-    f = n["inner"][0]
-    while f.get("kind") in ("ImplicitCastExpr", "ParenExpr"):
-        f = f["inner"][0]
-    return f.get("referencedDecl", {}).get("name")
+def macro_name(path, node):
+    """name of the macro a statement comes from (None if it is written directly)"""
+    b = node.get("range", {}).get("begin", {})
+    if "expansionLoc" not in b:
+        return None
+    o = b["expansionLoc"].get("offset")
+    if o is None:
+        return None
+    m = re.match(rb"[A-Za-z_]\w*", src_bytes(path)[o:o + 64])
+    return m.group(0).decode() if m else None
 
 
-def data_field_written(n):
-    """`d->field = …`, `d->field[i] = …`, `d->a = d->b = …`: returns list of field names or None"""
-    if n.get("kind") == "BinaryOperator" and n.get("opcode") == "=":
-        lhs, rhs = n["inner"]
-        x = lhs
-        while x.get("kind") in ("ArraySubscriptExpr", "ParenExpr", "ImplicitCastExpr"):
-            x = x["inner"][0]
-        if x.get("kind") == "MemberExpr":
-            base = x["inner"][0]
-            while base.get("kind") in ("ImplicitCastExpr", "ParenExpr"):
-                base = base["inner"][0]
-            if base.get("kind") == "DeclRefExpr" and base.get("referencedDecl", {}).get("name") == "d":
-                more = data_field_written(rhs) if rhs.get("kind") == "BinaryOperator" else []
-                return [x["name"]] + (more or [])
-            if base.get("kind") == "MemberExpr":  # d->timer[..].number etc.
-                b2 = base
-                while b2.get("kind") in ("MemberExpr", "ArraySubscriptExpr", "ImplicitCastExpr", "ParenExpr"):
-                    last = b2
-                    b2 = b2["inner"][0]
-                if b2.get("kind") == "DeclRefExpr" and b2.get("referencedDecl", {}).get("name") == "d":
-                    nm = last.get("name") if last.get("kind") == "MemberExpr" else None
-                    # find the first-level member
-                    y = x
-                    chain = []
-                    while y.get("kind") in ("MemberExpr", "ArraySubscriptExpr", "ImplicitCastExpr", "ParenExpr"):
-                        if y.get("kind") == "MemberExpr":
-                            chain.append(y["name"])
-                        y = y["inner"][0]
-                    return [chain[-1]] if chain else None
-    return None
+def strip(n):
+    while n.get("kind") in ("ImplicitCastExpr", "ParenExpr", "CStyleCastExpr", "ConstantExpr"):
+        n = n["inner"][0]
+    return n
 
 
-class Skel:
-    def __init__(self, path, names):
-        self.path = path
-        self.names = names
+def callee_decl(n):
+    f = strip(n["inner"][0])
+    return f.get("referencedDecl") or {}
 
-    def stmt(self, n):
+
+class Fn:
+    """translation of one function body"""
+
+    def __init__(self, path, fdecl, gvars, inline_names):
+        self.path, self.f, self.gvars, self.inline = path, fdecl, gvars, inline_names
+        self.params = [c["name"] for c in fdecl["inner"] if c.get("kind") == "ParmVarDecl"]
+        self.ptypes = {c["name"]: c["type"]["qualType"] for c in fdecl["inner"] if c.get("kind") == "ParmVarDecl"}
+        self.dname = next((p for p in self.params if re.fullmatch(r"(const )?mjData \*", self.ptypes[p])), None)
+        self.mname = next((p for p in self.params if re.fullmatch(r"(const )?mjModel \*", self.ptypes[p])), None)
+        self.alias = {}      # local pointer variable -> set of mjData fields (or LOCALS) it may point into
+        self.stage_calls = {}
+        self.atoms = []
+        body = [c for c in fdecl["inner"] if c["kind"] == "CompoundStmt"][0]
+        self.scan_aliases(body)
+        self.body = self.stmt(body, in_loop=False)
+
+    # ------------------------------------------------------------------ roots and accesses
+    def is_d(self, n):
+        n = strip(n)
+        return n.get("kind") == "DeclRefExpr" and n.get("referencedDecl", {}).get("name") == self.dname \
+            and n.get("referencedDecl", {}).get("kind") == "ParmVarDecl"
+
+    def root(self, n):
+        """what storage an lvalue / pointer expression designates:
+        ("field", name) | ("local", var) | ("model",) | ("global", name) | ("param", name) | ("none",)"""
+        n = strip(n)
         k = n.get("kind")
-        if k == "CompoundStmt":
-            ps = [self.stmt(c) for c in n.get("inner", [])]
-            ps = [p for p in ps if p is not None]
-            return {"k": "seq", "ps": ps}
-        if k == "NullStmt":
+        if k == "MemberExpr":
+            base = n["inner"][0]
+            if self.is_d(base):
+                return ("field", n["name"])
+            return self.root(base)
+        if k in ("ArraySubscriptExpr",):
+            return self.root(n["inner"][0])
+        if k == "UnaryOperator" and n.get("opcode") in ("*", "&", "++", "--"):
+            return self.root(n["inner"][0])
+        if k == "BinaryOperator" and n.get("opcode") in ("+", "-"):
+            return self.root(n["inner"][0])
+        if k == "ConditionalOperator":
+            a, b = self.root(n["inner"][1]), self.root(n["inner"][2])
+            return a if a == b else ("mixed", a, b)
+        if k == "DeclRefExpr":
+            rd = n.get("referencedDecl", {})
+            if rd.get("kind") == "ParmVarDecl":
+                if rd["name"] == self.mname:
+                    return ("model",)
+                if rd["name"] == self.dname:
+                    return ("data",)
+                return ("param", rd["name"])
+            if rd.get("kind") == "VarDecl":
+                if rd.get("id") in self.gvars:
+                    return ("global", rd["name"])
+                return ("local", rd["name"])
+            return ("none",)
+        return ("none",)
+
+    def root_fields(self, r):
+        """the set of pseudo fields a root stands for"""
+        if r[0] == "field":
+            return {r[1]}
+        if r[0] == "local":
+            return set(self.alias.get(r[1], {LOCALS}))
+        if r[0] == "mixed":
+            return self.root_fields(r[1]) | self.root_fields(r[2])
+        if r[0] == "data":
+            raise Refuse("the mjData pointer itself is used as a value outside a call")
+        return set()
+
+    def scan_aliases(self, n):
+        """flow-insensitive: a local pointer initialised / assigned from `d->field (+ off)` aliases that field"""
+        def note(var, init):
+            r = self.root(init)
+            s = self.alias.setdefault(var, set())
+            if r[0] == "field":
+                s.add(r[1])
+            elif r[0] == "mixed":
+                s |= self.root_fields_noalias(r)
+            else:
+                s.add(LOCALS)
+        k = n.get("kind")
+        if k == "VarDecl" and "*" in n.get("type", {}).get("qualType", ""):
+            inits = [c for c in n.get("inner", []) if "kind" in c]
+            if inits:
+                note(n["name"], inits[0])
+            else:
+                self.alias.setdefault(n["name"], set()).add(LOCALS)
+        if k == "BinaryOperator" and n.get("opcode") == "=":
+            lhs = strip(n["inner"][0])
+            if lhs.get("kind") == "DeclRefExpr" and "*" in lhs.get("type", {}).get("qualType", "") \
+                    and lhs.get("referencedDecl", {}).get("kind") == "VarDecl" \
+                    and lhs["referencedDecl"].get("id") not in self.gvars:
+                note(lhs["referencedDecl"]["name"], n["inner"][1])
+        for c in n.get("inner", []):
+            self.scan_aliases(c)
+
+    def root_fields_noalias(self, r):
+        if r[0] == "field":
+            return {r[1]}
+        if r[0] == "mixed":
+            return self.root_fields_noalias(r[1]) | self.root_fields_noalias(r[2])
+        if r[0] == "local":
+            return {LOCALS}
+        return set()
+
+    def accesses(self, n, reads, writes, kills, calls, top=True):
+        """collect loads / stores / calls of an expression or declaration in evaluation order (post-order)"""
+        k = n.get("kind")
+        if k is None:
+            return
+        if k == "CallExpr":
+            for a in n["inner"][1:]:
+                self.accesses(a, reads, writes, kills, calls, False)
+            calls.append(n)
+            return
+        if k == "ImplicitCastExpr" and n.get("castKind") == "LValueToRValue":
+            x = strip(n["inner"][0])
+            t = x.get("type", {}).get("qualType", "")
+            xk = x.get("kind")
+            if xk == "MemberExpr" and self.is_d(x["inner"][0]):
+                if "*" not in t:
+                    reads.add(x["name"])      # scalar member of mjData: a data read
+                # loading a pointer member reads no simulation data
+            elif xk == "DeclRefExpr":
+                r = self.root(x)
+                if r[0] == "local":
+                    reads.add(LOCALS)
+            else:
+                reads |= self.root_fields(self.root(x))
+                self.index_reads(x, reads, writes, kills, calls)
+            return
+        if k == "BinaryOperator" and (n.get("opcode") == "=" or n.get("opcode", "").endswith("=") and
+                                      n["opcode"] not in ("==", "!=", "<=", ">=")):
+            lhs, rhs = n["inner"]
+            self.accesses(rhs, reads, writes, kills, calls, False)
+            self.store(lhs, n["opcode"] != "=", reads, writes, kills, calls)
+            return
+        if k == "CompoundAssignOperator":
+            lhs, rhs = n["inner"]
+            self.accesses(rhs, reads, writes, kills, calls, False)
+            self.store(lhs, True, reads, writes, kills, calls)
+            return
+        if k == "UnaryOperator" and n.get("opcode") in ("++", "--"):
+            self.store(n["inner"][0], True, reads, writes, kills, calls)
+            return
+        if k == "VarDecl":
+            inits = [c for c in n.get("inner", []) if "kind" in c]
+            for c in inits:
+                self.accesses(c, reads, writes, kills, calls, False)
+            if inits:
+                writes.add(LOCALS)
+            return
+        for c in n.get("inner", []):
+            self.accesses(c, reads, writes, kills, calls, False)
+
+    def index_reads(self, x, reads, writes, kills, calls):
+        """loads inside the index / offset sub-expressions of an lvalue"""
+        x = strip(x)
+        k = x.get("kind")
+        if k == "ArraySubscriptExpr":
+            self.index_reads(x["inner"][0], reads, writes, kills, calls)
+            self.accesses(x["inner"][1], reads, writes, kills, calls, False)
+        elif k == "MemberExpr":
+            if not self.is_d(x["inner"][0]):
+                self.index_reads(x["inner"][0], reads, writes, kills, calls)
+        elif k == "UnaryOperator":
+            self.index_reads(x["inner"][0], reads, writes, kills, calls)
+        elif k == "BinaryOperator":
+            self.index_reads(x["inner"][0], reads, writes, kills, calls)
+            self.accesses(x["inner"][1], reads, writes, kills, calls, False)
+
+    def store(self, lhs, also_read, reads, writes, kills, calls):
+        x = strip(lhs)
+        r = self.root(x)
+        if r[0] in ("model", "global"):
+            raise Refuse("store into the model or a global: %s" % src_text(self.path, lhs))
+        if r[0] == "param":
+            fs = {LOCALS}
+        elif x.get("kind") == "DeclRefExpr" and r[0] == "local":
+            fs = {LOCALS}        # the variable itself (not what it points to)
+        else:
+            fs = self.root_fields(r) or {LOCALS}
+        writes |= fs
+        if also_read:
+            reads |= fs
+        elif x.get("kind") == "MemberExpr" and self.is_d(x["inner"][0]) and "*" not in x.get("type", {}).get("qualType", "") \
+                and "[" not in x.get("type", {}).get("qualType", ""):
+            kills.add(x["name"])
+        self.index_reads(x, reads, writes, kills, calls)
+
+    # ------------------------------------------------------------------ calls
+    def term(self, a):
+        x = strip(a)
+        k = x.get("kind")
+        if k == "IntegerLiteral":
+            return {"k": "const", "n": int(x["value"]), "name": ""}
+        if k == "DeclRefExpr":
+            rd = x.get("referencedDecl", {})
+            if rd.get("kind") == "EnumConstantDecl":
+                c2lean.load_enums()
+                if rd["name"] not in c2lean.ENUMS:
+                    raise Refuse("unknown enumerator " + rd["name"])
+                return {"k": "const", "n": c2lean.ENUMS[rd["name"]], "name": rd["name"]}
+            if rd.get("kind") == "ParmVarDecl":
+                return {"k": "param", "x": rd["name"]}
+        if k == "UnaryOperator" and x.get("opcode") == "-" and strip(x["inner"][0]).get("kind") == "IntegerLiteral":
+            return {"k": "const", "n": -int(strip(x["inner"][0])["value"]), "name": ""}
+        return {"k": "opaque", "s": src_text(self.path, a) or "?"}
+
+    def call_event(self, n):
+        rd = callee_decl(n)
+        text = src_text(self.path, n) or "?"
+        if rd.get("kind") != "FunctionDecl":
+            # call through a pointer (user callbacks such as mjcb_control)
+            f = strip(n["inner"][0])
+            nm = f.get("referencedDecl", {}).get("name") or f.get("name") or "indirect"
+            if nm in IGNORED_CALLS:
+                return None
+            args = []
+            self.stage_calls["cb:" + nm] = {"callee": nm, "text": text, "indirect": True}
+            return {"k": "call", "f": "cb:" + nm, "key": "cb:" + nm, "args": args}
+        nm = rd["name"]
+        if nm in IGNORED_CALLS:
             return None
+        args = n["inner"][1:]
+        takes_d = any(self.root(a)[0] == "data" for a in args)
+        if nm in self.inline or takes_d:
+            plain = all(self.root(a)[0] in ("data", "model") and strip(a).get("kind") == "DeclRefExpr" for a in args)
+            key = nm if (plain or nm in self.inline) else text
+            if nm not in self.inline:
+                self.stage_calls[key] = {"callee": nm, "text": text, "indirect": False}
+            return {"k": "call", "f": nm, "key": key, "args": [self.term(a) for a in args] if nm in self.inline else []}
+        # utility that does not receive the mjData: footprint from the prototype
+        proto = rd.get("type", {}).get("qualType", "")
+        m = re.match(r"^(.*?)\((.*)\)$", proto)
+        ptypes = [p.strip() for p in m.group(2).split(",")] if m and m.group(2).strip() else []
+        reads, writes, kills, calls = set(), set(), set(), []
+        for i, a in enumerate(args):
+            pt = ptypes[i] if i < len(ptypes) else ""
+            at = strip(a).get("type", {}).get("qualType", "") if False else a.get("type", {}).get("qualType", "")
+            if "*" in at or "[" in at:
+                r = self.root(a)
+                fs = self.root_fields(r)
+                if pt.startswith("const ") or not pt:
+                    reads |= fs
+                else:
+                    reads |= fs
+                    writes |= fs
+                self.index_reads(strip(a), reads, writes, kills, calls)
+            else:
+                self.accesses(a, reads, writes, kills, calls, False)
+        if calls:
+            raise Refuse("nested call inside the arguments of " + text)
+        return {"k": "atom", "text": text, "R": sorted(reads), "W": sorted(writes), "K": []}
+
+    # ------------------------------------------------------------------ guards
+    def guard(self, n, pre):
+        x = strip(n)
+        k = x.get("kind")
+        if k == "UnaryOperator" and x.get("opcode") == "!":
+            return {"k": "not", "g": self.guard(x["inner"][0], pre)}
+        if k == "BinaryOperator" and x.get("opcode") in ("&&", "||"):
+            return {"k": "and" if x["opcode"] == "&&" else "or", "a": self.guard(x["inner"][0], pre), "b": self.guard(x["inner"][1], pre)}
+        if k == "BinaryOperator" and x.get("opcode") in ("<", "<=", ">", ">=", "==", "!="):
+            a, b = self.term(x["inner"][0]), self.term(x["inner"][1])
+            def scalar_param(t):
+                return t["k"] == "param" and t["x"] not in (self.mname, self.dname) and "*" not in self.ptypes.get(t["x"], "*")
+            if (scalar_param(a) or a["k"] == "const") and (scalar_param(b) or b["k"] == "const") and (scalar_param(a) or scalar_param(b)):
+                op = {"<": "lt", "<=": "le", ">": "gt", ">=": "ge", "==": "eq", "!=": "ne"}[x["opcode"]]
+                return {"k": "cmp", "op": op, "a": a, "b": b}
+        if k == "DeclRefExpr" and x.get("referencedDecl", {}).get("kind") == "ParmVarDecl":
+            nm = x["referencedDecl"]["name"]
+            if nm not in (self.mname, self.dname) and "*" not in self.ptypes.get(nm, "*"):
+                return {"k": "truthy", "a": {"k": "param", "x": nm}}
+        # leaf
+        text = src_text(self.path, n) or "?"
+        reads, writes, kills, calls = set(), set(), set(), []
+        self.accesses(n, reads, writes, kills, calls, False)
+        if writes:
+            raise Refuse("guard with side effects: " + text)
+        uses_param = self.mentions_param(n)
+        for c in calls:
+            if any(self.root(a)[0] == "data" for a in c["inner"][1:]):
+                raise Refuse("guard calls a function that receives the mjData: " + text)
+        if not reads and not uses_param:
+            return {"k": "mconst", "s": text}
+        if uses_param:
+            reads.add(LOCALS)
+        return {"k": "data", "s": text, "R": sorted(reads)}
+
+    def mentions_param(self, n):
+        x = n
+        if x.get("kind") == "DeclRefExpr":
+            rd = x.get("referencedDecl", {})
+            if rd.get("kind") == "ParmVarDecl" and rd["name"] not in (self.mname, self.dname):
+                return True
+        return any(self.mentions_param(c) for c in x.get("inner", []) if isinstance(c, dict))
+
+    # ------------------------------------------------------------------ statements
+    def is_error(self, n):
+        if n.get("kind") == "CallExpr" and callee_decl(n).get("name") in ("mju_message", "mju_error"):
+            return True
+        return any(self.is_error(c) for c in n.get("inner", []) if isinstance(c, dict))
+
+    def simple(self, n, name=None):
+        """a non-control statement: its calls (in evaluation order) followed by its own effect"""
+        reads, writes, kills, calls = set(), set(), set(), []
+        self.accesses(n, reads, writes, kills, calls)
+        ps = []
+        for c in calls:
+            ev = self.call_event(c)
+            if ev is not None:
+                ps.append(ev)
+        has_effect = bool(writes) or (n.get("kind") == "DeclStmt" and any(
+            any("kind" in i for i in v.get("inner", [])) for v in n.get("inner", []) if v.get("kind") == "VarDecl"))
+        if has_effect or (name and (reads or writes)):
+            text = name or src_text(self.path, n) or "?"
+            at = {"k": "atom", "text": text, "R": sorted(reads), "W": sorted(writes), "K": sorted(kills)}
+            self.atoms.append(at)
+            ps.append(at)
+        return ps
+
+    def stmt(self, n, in_loop):
+        k = n.get("kind")
+        if k is None or k == "NullStmt":
+            return None
+        mac = macro_name(self.path, n)
+        if mac and mac.startswith("TM_"):
+            # timer macros: one atom named after the macro invocation; mjcb_time is not a simulation input
+            ps = [p for p in self.simple(n, name=src_text(self.path, n)) if p["k"] == "atom"]
+            return {"k": "seq", "ps": ps} if ps else None
+        if k == "CompoundStmt":
+            if self.is_error(n) and mac == "mjERROR":
+                return {"k": "err"}
+            ps = [self.stmt(c, in_loop) for c in n.get("inner", [])]
+            return {"k": "seq", "ps": [p for p in ps if p is not None]}
+        if self.is_error(n) and k not in ("IfStmt", "ForStmt", "WhileStmt", "DoStmt", "SwitchStmt"):
+            return {"k": "err"}
         if k == "DeclStmt":
-            # local declarations with call initialisers (e.g. `int flg = mj_foo(m,d)`) are kept as calls
-            calls = []
-            self.collect_calls(n, calls)
-            return {"k": "seq", "ps": calls} if calls else None
+            ps = self.simple(n)
+            return {"k": "seq", "ps": ps} if ps else None
         if k == "IfStmt":
             inner = n["inner"]
-            g = src_text(self.path, inner[0])
-            if g is None:
-                raise Refuse("cannot recover the source text of a guard")
             pre = []
-            self.collect_calls(inner[0], pre)
-            t = self.stmt(inner[1]) or {"k": "seq", "ps": []}
-            e = self.stmt(inner[2]) if len(inner) > 2 else None
-            node = {"k": "ite", "g": g, "t": t, "e": e or {"k": "seq", "ps": []}}
-            return {"k": "seq", "ps": pre + [node]} if pre else node
-        if k in ("ForStmt", "WhileStmt", "DoStmt"):
-            body = n["inner"][-1] if k != "DoStmt" else n["inner"][0]
-            b = self.stmt(body) or {"k": "seq", "ps": []}
-            return {"k": "loop", "p": b}
+            g = self.guard(inner[0], pre)
+            t = self.stmt(inner[1], in_loop) or {"k": "seq", "ps": []}
+            e = (self.stmt(inner[2], in_loop) if len(inner) > 2 else None) or {"k": "seq", "ps": []}
+            return {"k": "ite", "g": g, "t": t, "e": e}
+        if k == "ForStmt":
+            init, _, cond, inc, body = n["inner"]
+            ps = []
+            if init.get("kind"):
+                s = self.stmt(init, in_loop) if init["kind"] == "DeclStmt" else {"k": "seq", "ps": self.simple(init)}
+                if s:
+                    ps.append(s)
+            g = self.guard(cond, []) if cond.get("kind") else {"k": "mconst", "s": "1"}
+            b = self.stmt(body, True) or {"k": "seq", "ps": []}
+            incs = self.simple(inc) if inc.get("kind") else []
+            ps.append({"k": "loop", "g": g, "p": {"k": "seq", "ps": [b] + incs}})
+            return {"k": "seq", "ps": ps}
+        if k == "WhileStmt":
+            cond, body = n["inner"][-2], n["inner"][-1]
+            return {"k": "loop", "g": self.guard(cond, []), "p": self.stmt(body, True) or {"k": "seq", "ps": []}}
+        if k == "DoStmt":
+            body, cond = n["inner"]
+            b = self.stmt(body, True) or {"k": "seq", "ps": []}
+            return {"k": "seq", "ps": [b, {"k": "loop", "g": self.guard(cond, []), "p": b}]}
         if k == "SwitchStmt":
             inner = n["inner"]
-            scrut = src_text(self.path, inner[0]) or "?"
+            scrut = inner[0]
+            text = src_text(self.path, scrut) or "?"
+            reads, writes, kills, calls = set(), set(), set(), []
+            self.accesses(scrut, reads, writes, kills, calls, False)
+            if reads or writes or calls or self.mentions_param(scrut):
+                raise Refuse("switch on a data-dependent expression: " + text)
             body = inner[-1]
             cases, cur = [], None
             for c in body.get("inner", []):
+                if c.get("kind") == "NullStmt":
+                    continue
                 node, labels = c, []
                 while node["kind"] in ("CaseStmt", "DefaultStmt"):
                     if node["kind"] == "CaseStmt":
@@ -154,64 +501,82 @@ class Skel:
                         labels.append("default")
                     node = node["inner"][-1]
                 if labels:
+                    if cur is not None:
+                        raise Refuse("switch with fall-through")
                     cur = {"labels": labels, "ps": []}
                     cases.append(cur)
                 if node["kind"] == "BreakStmt":
                     cur = None
                     continue
                 if cur is None:
-                    if not labels:
-                        raise Refuse("switch with fall-through or statement outside a case")
-                p = self.stmt(node)
+                    raise Refuse("statement outside a case")
+                p = self.stmt(node, False)
                 if p is not None:
-                    cases[-1]["ps"].append(p)
-            return {"k": "switch", "on": scrut, "cases": [{"labels": c["labels"], "p": {"k": "seq", "ps": c["ps"]}} for c in cases]}
+                    cur["ps"].append(p)
+                    if self.always_exits(p):
+                        cur = None
+            if cur is not None and cases and cur is not cases[-1]:
+                raise Refuse("switch with fall-through")
+            return {"k": "switch", "on": text, "cases": [{"labels": c["labels"], "p": {"k": "seq", "ps": c["ps"]}} for c in cases]}
         if k == "ReturnStmt":
-            return {"k": "ret"}
+            ps = self.simple(n) if n.get("inner") else []
+            return {"k": "seq", "ps": ps + [{"k": "ret"}]}
         if k in ("BreakStmt", "ContinueStmt"):
-            return None
-        # expression statements
-        if self.is_error(n):
-            return {"k": "err"}
-        w = data_field_written(n)
-        calls = []
-        self.collect_calls(n, calls)
-        ps = calls
-        if w:
-            ps = ps + [{"k": "write", "f": f} for f in w]
+            raise Refuse("break/continue inside a loop is not modelled")
+        # expression statement
+        ps = self.simple(n)
         if not ps:
             return None
         return ps[0] if len(ps) == 1 else {"k": "seq", "ps": ps}
 
-    def is_error(self, n):
-        if n.get("kind") == "CallExpr" and callee_name(n) in ("mju_message", "mju_error"):
+    def always_exits(self, p):
+        if p["k"] in ("err", "ret"):
             return True
-        return any(self.is_error(c) for c in n.get("inner", []))
+        if p["k"] == "seq":
+            return any(self.always_exits(q) for q in p["ps"])
+        return False
 
-    def collect_calls(self, n, out):
-        for c in n.get("inner", []):
-            self.collect_calls(c, out)
-        if n.get("kind") == "CallExpr":
-            nm = callee_name(n)
-            if nm is None:
-                # call through a pointer (callbacks such as mjcb_control)
-                f = n["inner"][0]
-                while f.get("kind") in ("ImplicitCastExpr", "ParenExpr"):
-                    f = f["inner"][0]
-                nm = f.get("referencedDecl", {}).get("name") or f.get("name") or "indirect"
-                out.append({"k": "call", "f": "cb:" + nm})
-                return
-            if nm in IGNORED_CALLS or nm.startswith("mju_timer") or nm in ("snprintf",):
-                return
-            out.append({"k": "call", "f": nm})
+
+# ---------------------------------------------------------------------------------------------- Lean output
+def esc(s):
+    return s.replace("\\", "\\\\").replace('"', '\\"')
+
+
+def slist(xs):
+    return "[" + ", ".join('"%s"' % esc(x) for x in xs) + "]"
+
+
+def term_lean(t):
+    if t["k"] == "const":
+        return '(.const %s "%s")' % (("%d" % t["n"]) if t["n"] >= 0 else "(%d)" % t["n"], esc(t["name"]))
+    if t["k"] == "param":
+        return '(.param "%s")' % esc(t["x"])
+    return '(.opaque "%s")' % esc(t["s"])
+
+
+def guard_lean(g):
+    k = g["k"]
+    if k == "mconst":
+        return '(.mconst "%s")' % esc(g["s"])
+    if k == "data":
+        return '(.data "%s" %s)' % (esc(g["s"]), slist(g["R"]))
+    if k == "not":
+        return "(.not %s)" % guard_lean(g["g"])
+    if k in ("and", "or"):
+        return "(.%s %s %s)" % (k, guard_lean(g["a"]), guard_lean(g["b"]))
+    if k == "cmp":
+        return "(.cmp .%s %s %s)" % (g["op"], term_lean(g["a"]), term_lean(g["b"]))
+    if k == "truthy":
+        return "(.truthy %s)" % term_lean(g["a"])
+    raise Refuse("unknown guard node " + k)
 
 
 def to_lean(p, ind="  "):
     k = p["k"]
     if k == "call":
-        return '.call "%s"' % p["f"]
-    if k == "write":
-        return '.write "%s"' % p["f"]
+        return '.call "%s" "%s" [%s]' % (esc(p["f"]), esc(p["key"]), ", ".join(term_lean(a) for a in p["args"]))
+    if k == "atom":
+        return '.atom "%s" %s %s %s' % (esc(p["text"]), slist(p["R"]), slist(p["W"]), slist(p["K"]))
     if k == "err":
         return ".err"
     if k == "ret":
@@ -221,17 +586,33 @@ def to_lean(p, ind="  "):
             return ".seq []"
         return ".seq [\n" + ",\n".join(ind + "  " + to_lean(q, ind + "  ") for q in p["ps"]) + "]"
     if k == "ite":
-        return '.ite "%s"\n%s  (%s)\n%s  (%s)' % (esc(p["g"]), ind, to_lean(p["t"], ind + "  "), ind, to_lean(p["e"], ind + "  "))
+        return '.ite %s\n%s  (%s)\n%s  (%s)' % (guard_lean(p["g"]), ind, to_lean(p["t"], ind + "  "), ind, to_lean(p["e"], ind + "  "))
     if k == "loop":
-        return ".loop (%s)" % to_lean(p["p"], ind + "  ")
+        return ".loop %s\n%s  (%s)" % (guard_lean(p["g"]), ind, to_lean(p["p"], ind + "  "))
     if k == "switch":
-        cs = ",\n".join('%s  ([%s], %s)' % (ind, ", ".join('"%s"' % esc(l) for l in c["labels"]), to_lean(c["p"], ind + "    ")) for c in p["cases"])
+        cs = ",\n".join('%s  (%s, %s)' % (ind, slist(c["labels"]), to_lean(c["p"], ind + "    ")) for c in p["cases"])
         return '.switch "%s" [\n%s]' % (esc(p["on"]), cs)
     raise Refuse("unknown node " + k)
 
 
-def esc(s):
-    return s.replace("\\", "\\\\").replace('"', '\\"')
+def flatten(p):
+    """drop empty / singleton sequences (purely cosmetic: `seq` is associative in the semantics)"""
+    if p["k"] == "seq":
+        out = []
+        for q in p["ps"]:
+            q = flatten(q)
+            if q["k"] == "seq":
+                out += q["ps"]
+            else:
+                out.append(q)
+        return {"k": "seq", "ps": out}
+    if p["k"] == "ite":
+        return dict(p, t=flatten(p["t"]), e=flatten(p["e"]))
+    if p["k"] == "loop":
+        return dict(p, p=flatten(p["p"]))
+    if p["k"] == "switch":
+        return dict(p, cases=[dict(c, p=flatten(c["p"])) for c in p["cases"]])
+    return p
 
 
 def main():
@@ -240,28 +621,41 @@ def main():
     out = ["import MjProof.Model.Prog", "/-",
            "GENERATED by translate/skeleton.py from engine_forward.c / engine_inverse.c of the working tree. Do not edit.",
            "-/", "namespace MjProof.Gen.Pipeline", "open MjProof.Prog", ""]
-    names, refused, man = [], {}, {}
-    for name, file in PIPELINE:
+    names, refused, man, stage_calls = [], {}, {}, {}
+    inline_names = [n for n, _ in INLINE]
+    for name, file in INLINE:
         path = os.path.join(REPO, file)
         try:
-            funcs, _ = c2lean.load_ast(path)
+            funcs, gvars = c2lean.load_ast(path)
             if name not in funcs:
                 raise Refuse("function not found in " + file)
-            body = [c for c in funcs[name]["inner"] if c["kind"] == "CompoundStmt"][0]
-            p = Skel(path, [n for n, _ in PIPELINE]).stmt(body)
-            out.append("def %s : Prog :=\n  %s\n" % (name, to_lean(p)))
-            names.append(name)
-            man[name] = {"file": file, "sha256": c2lean.func_sha(funcs[name], file), "prog": p}
-        except (Refuse, c2lean.Refuse, KeyError, IndexError) as e:
+            fn = Fn(path, funcs[name], gvars, inline_names)
+            p = flatten(fn.body)
+            text = "def %s : Prog :=\n  %s\n" % (name, to_lean(p))
+            out.append(text)
+            names.append((name, fn.params))
+            man[name] = {"file": file, "sha256": c2lean.func_sha(funcs[name], file), "params": fn.params, "prog": p,
+                         "stage_calls": fn.stage_calls}
+            for k, v in fn.stage_calls.items():
+                stage_calls.setdefault(k, dict(v, used_by=[]))["used_by"].append(name)
+        except (Refuse, c2lean.Refuse, KeyError, IndexError, ValueError, TypeError) as e:
             refused[name] = "%s: %s" % (type(e).__name__, e)
-    out.append("/-- name → skeleton, for inlining pipeline calls -/")
-    out.append("def table : List (String × Prog) := [\n" + ",\n".join('  ("%s", %s)' % (n, n) for n in names) + "]\n")
+    out.append("/-- name ↦ parameters and body of every translated function, for inlining pipeline calls -/")
+    out.append("def table : List FunDef := [\n" + ",\n".join(
+        '  { name := "%s", params := %s, body := %s }' % (n, slist(ps), n) for n, ps in names) + "]\n")
+    out.append("/-- keys of the atomic stage calls (calls that receive the mjData and are not inlined) -/")
+    out.append("def stageKeys : List String := [\n" + ",\n".join('  "%s"' % esc(k) for k in sorted(stage_calls)) + "]\n")
+    out.append("/-- functions the translator refused (must be empty for the theorems to mean anything) -/")
+    out.append("def refused : List String := %s\n" % slist(sorted(refused)))
     out.append("end MjProof.Gen.Pipeline")
     text = "\n".join(out) + "\n"
     p = os.path.join(gen, "Pipeline.lean")
     if not os.path.exists(p) or open(p).read() != text:
-        open(p, "w").write(text)
-    json.dump({"functions": man, "refused": refused}, open(os.path.join(gen, "pipeline_manifest.json"), "w"), indent=1)
+        tmp = p + ".tmp%d" % os.getpid()
+        open(tmp, "w").write(text)
+        os.replace(tmp, p)
+    json.dump({"repo": REPO, "functions": man, "refused": refused, "stage_calls": stage_calls},
+              open(os.path.join(gen, "pipeline_manifest.json"), "w"), indent=1)
     print("skeleton: %d functions, %d refused %s" % (len(names), len(refused), refused if refused else ""))
 
 
